@@ -60,54 +60,74 @@ Proof.
   rewrite scan_dn_none; auto.
 Qed.
 
-Lemma Hist_store_new : forall s d, Inv s -> Valid s d -> Hist_new s -> Hist_new (store_new s d).
+Lemma sys_new_entry : forall s d p, Inv s -> VS s d -> In p (sys_new (s_class s) d) ->
+  snd p = 0 /\ is_sys (fst p) = true /\ touched d (fst p) = true /\ get (s_class s) [fst p] = None /\
+  find (fun e => keqb [fst p] [fst e]) (d_deploy d) = None.
 Proof.
-  intros s d I Vd Hs. pose proof (Inv_store_new s d I Vd) as I'.
-  constructor; simpl.
-  - intros a c Hc. rewrite get_upd_class in Hc.
-    set (m' := foldd (fun e m => put [fst e; s_next s] (snd e) m) (d_deploy d)
-              (foldd (fun e m => put [fst e; s_next s] (snd e) m) (d_replace d) (s_lclass s))).
+  intros s d p I V Hin. apply in_sys_new in Hin. destruct Hin as [Z Hin]. apply in_sys_missing in Hin.
+  destruct Hin as [Hs [Ht Hc]]. repeat split; auto.
+  destruct (find (fun e => keqb [fst p] [fst e]) (d_deploy d)) eqn:F; auto.
+  apply find_key_some in F. destruct F as [K Hd]. inversion K. rewrite H0 in Hs.
+  rewrite (vs_dep _ _ V _ Hd) in Hs. discriminate.
+Qed.
+
+Lemma Hist_store_new : forall s d, Inv s -> VS s d -> Hist_new s -> Hist_new (store_new s d).
+Proof.
+  intros s d I V Hs. pose proof (Inv_store_new s d I V) as I'. rewrite store_new_eq in * by auto. cbv zeta in *.
+  pose proof (vs_valid _ _ V) as Vd.
+  constructor; cbn [s_class s_nonce s_store s_lclass s_lnonce s_lstore s_next].
+  - intros a c Hc. rewrite get_upd_class in Hc. cbn [with_sys d_deploy d_replace] in Hc.
+    set (m' := lclass_new s d).
     assert (Sm' : sorted m') by (apply (i_s8 _ I')).
     assert (G : get m' ([a] ++ [s_next s]) =
       match find (fun e => keqb [a] [fst e]) (d_deploy d) with Some e => Some (snd e) | None =>
       match find (fun e => keqb [a] [fst e]) (d_replace d) with Some e => Some (snd e) | None => None end end).
-    { unfold m'. simpl. rewrite !get_lput1. rewrite N.eqb_refl.
+    { unfold m', lclass_new. simpl. rewrite !get_lput1. rewrite N.eqb_refl.
       destruct (find _ (d_deploy d)); auto. destruct (find _ (d_replace d)); auto.
       apply (below_none _ _ [a] _ (i_b3 _ I)). lia. }
+    assert (ST : forall b, b < s_next s -> get m' ([a] ++ [b]) = get (s_lclass s) ([a] ++ [b])).
+    { intros. unfold m', lclass_new. simpl. rewrite !get_lput1. destruct (b =? s_next s) eqn:E; auto. lia. }
     destruct (find (fun e => keqb [a] [fst e]) (d_replace d)) eqn:F1.
-    + destruct (find (fun e => keqb [a] [fst e]) (d_deploy d)) eqn:F2.
+    + destruct (find (fun e => keqb [a] [fst e]) (sys_new (s_class s) d ++ d_deploy d)) eqn:F2.
       * exfalso. apply find_key_some in F1. apply find_key_some in F2. destruct F1 as [K1 H1]. destruct F2 as [K2 H2].
         inversion K1. inversion K2. apply (v_replace _ _ Vd _ H1). rewrite <- H0. rewrite H3. apply (v_deploy _ _ Vd). auto.
-      * inversion Hc; subst. apply hist_hit; auto.
-    + destruct (find (fun e => keqb [a] [fst e]) (d_deploy d)) eqn:F2.
-      * inversion Hc; subst. apply hist_hit; auto.
-      * rewrite (hist_miss (s_lclass s)); auto.
-        -- apply (h_class _ Hs); auto.
-        -- apply (i_s8 _ I).
-        -- intros. unfold m'. simpl. rewrite !get_lput1. destruct (b =? s_next s) eqn:E; auto. lia.
-  - intros a v Hv. rewrite get_upd_nonce in Hv.
-    set (m' := foldd (fun e m => put [fst e; s_next s] (snd e) m) (d_nonce d) (s_lnonce s)).
+      * inversion Hc; subst. apply hist_hit; auto. rewrite G.
+        apply find_app_none in F2. destruct F2 as [_ F2]. rewrite F2. auto.
+    + rewrite find_app in Hc.
+      destruct (find (fun e => keqb [a] [fst e]) (sys_new (s_class s) d)) eqn:F2a.
+      * (* a system contract created by this block: class hash 0, no history entry *)
+        inversion Hc; subst. apply find_key_some in F2a. destruct F2a as [K Hin]. inversion K; subst.
+        destruct (sys_new_entry s d p I V Hin) as [Z [_ [_ [Hn F2]]]]. rewrite Z.
+        rewrite (hist_miss (s_lclass s)); auto; [| apply (i_s8 _ I) | rewrite G, F2; auto].
+        apply hist_nolog; [apply (i_s8 _ I)|]. destruct (i_nolog _ I _ Hn) as [_ [N2 _]]. auto.
+      * destruct (find (fun e => keqb [a] [fst e]) (d_deploy d)) eqn:F2.
+        -- inversion Hc; subst. apply hist_hit; auto.
+        -- rewrite (hist_miss (s_lclass s)); auto.
+           ++ apply (h_class _ Hs); auto.
+           ++ apply (i_s8 _ I).
+  - intros a v Hv. rewrite get_upd_nonce in Hv. cbn [with_sys d_deploy d_nonce] in Hv.
+    set (m' := lnonce_new s d).
     assert (Sm' : sorted m') by (apply (i_s7 _ I')).
     assert (G : get m' ([a] ++ [s_next s]) =
       match find (fun e => keqb [a] [fst e]) (d_nonce d) with Some e => Some (snd e) | None => None end).
-    { unfold m'. simpl. rewrite !get_lput1. rewrite N.eqb_refl.
+    { unfold m', lnonce_new. simpl. rewrite !get_lput1. rewrite N.eqb_refl.
       destruct (find _ (d_nonce d)); auto. apply (below_none _ _ [a] _ (i_b2 _ I)). lia. }
     destruct (find (fun e => keqb [a] [fst e]) (d_nonce d)) eqn:F1.
     + inversion Hv; subst. apply hist_hit; auto.
     + rewrite (hist_miss (s_lnonce s)); auto.
-      * destruct (find (fun e => keqb [a] [fst e]) (d_deploy d)) eqn:F2.
+      * destruct (find (fun e => keqb [a] [fst e]) (sys_new (s_class s) d ++ d_deploy d)) eqn:F2.
         -- inversion Hv; subst. apply find_key_some in F2. destruct F2 as [K2 H2]. inversion K2; subst.
            destruct (i_nolog _ I _ (v_deploy _ _ Vd _ H2)) as [N1 _].
            apply hist_nolog; [apply (i_s7 _ I) | auto].
         -- apply (h_nonce _ Hs); auto.
       * apply (i_s7 _ I).
-      * intros. unfold m'. simpl. rewrite !get_lput1. destruct (b =? s_next s) eqn:E; auto. lia.
+      * intros. unfold m', lnonce_new. simpl. rewrite !get_lput1. destruct (b =? s_next s) eqn:E; auto. lia.
   - intros a sl.
-    set (m' := foldd (fun e m => put [fst (fst e); snd (fst e); s_next s] (snd e) m) (d_store d) (s_lstore s)).
+    set (m' := lstore_new s d).
     assert (Sm' : sorted m') by (apply (i_s6 _ I')).
     assert (G : get m' ([a; sl] ++ [s_next s]) =
       match find (fun e => keqb [a; sl] (skey e)) (d_store d) with Some e => Some (snd e) | None => None end).
-    { unfold m'. simpl. rewrite !get_lput2. rewrite N.eqb_refl. unfold skey.
+    { unfold m', lstore_new. simpl. rewrite !get_lput2. rewrite N.eqb_refl. unfold skey.
       destruct (find _ (d_store d)); auto. apply (below_none _ _ [a; sl] _ (i_b1 _ I)). lia. }
     unfold getd. rewrite get_upd_store by (apply (i_s4 _ I)).
     destruct (find (fun e => keqb [a; sl] (skey e)) (d_store d)) eqn:F1.
@@ -115,7 +135,7 @@ Proof.
     + rewrite (hist_miss (s_lstore s)); auto.
       * apply (h_store _ Hs).
       * apply (i_s6 _ I).
-      * intros. unfold m'. simpl. rewrite !get_lput2. destruct (b =? s_next s) eqn:E; auto. lia.
+      * intros. unfold m', lstore_new. simpl. rewrite !get_lput2. destruct (b =? s_next s) eqn:E; auto. lia.
 Qed.
 
 (* ---------- Revert undoes Update (new backend) ---------- *)
@@ -126,47 +146,14 @@ Proof.
   apply hist_stable; auto. intros. apply H1. lia.
 Qed.
 
-Section RevertNew.
+(* the head buckets: what the reverse diff, the deletion of the deployed contracts (the system contracts a
+   block created included: they are the first entries of the deployment list of [with_sys]) restore.
+   Generic in the diff, used by both backends. *)
+Section RevertHead.
   Variables (s : st) (d : diff).
   Hypothesis I : Inv s.
-  Hypothesis Hs : Hist_new s.
   Hypothesis Vd : Valid s d.
   Let n := s_next s.
-  Let lstore' := foldd (fun e m => put [fst (fst e); snd (fst e); n] (snd e) m) (d_store d) (s_lstore s).
-  Let lnonce' := foldd (fun e m => put [fst e; n] (snd e) m) (d_nonce d) (s_lnonce s).
-  Let lclass' := foldd (fun e m => put [fst e; n] (snd e) m) (d_deploy d)
-                   (foldd (fun e m => put [fst e; n] (snd e) m) (d_replace d) (s_lclass s)).
-
-  Lemma rn_sorted_ls : sorted lstore'. Proof. apply sorted_fold_put. apply (i_s6 _ I). Qed.
-  Lemma rn_sorted_ln : sorted lnonce'. Proof. apply sorted_fold_put. apply (i_s7 _ I). Qed.
-  Lemma rn_sorted_lc : sorted lclass'. Proof. repeat apply sorted_fold_put. apply (i_s8 _ I). Qed.
-
-  Lemma rn_rev_class : forall a c, get (s_class s) [a] = Some c -> rev_val_new lclass' [a] n = c.
-  Proof.
-    intros. rewrite (rev_val_stable (s_lclass s)).
-    - apply (h_class _ Hs); auto.
-    - apply (i_s8 _ I).
-    - apply rn_sorted_lc.
-    - intros. unfold lclass'. simpl. rewrite !get_lput1. destruct (b =? n) eqn:E; auto. lia.
-  Qed.
-
-  Lemma rn_rev_nonce : forall a c, get (s_nonce s) [a] = Some c -> rev_val_new lnonce' [a] n = c.
-  Proof.
-    intros. rewrite (rev_val_stable (s_lnonce s)).
-    - apply (h_nonce _ Hs); auto.
-    - apply (i_s7 _ I).
-    - apply rn_sorted_ln.
-    - intros. unfold lnonce'. simpl. rewrite !get_lput1. destruct (b =? n) eqn:E; auto. lia.
-  Qed.
-
-  Lemma rn_rev_store : forall a sl, rev_val_new lstore' [a; sl] n = getd (s_store s) [a; sl].
-  Proof.
-    intros. rewrite (rev_val_stable (s_lstore s)).
-    - apply (h_store _ Hs); auto.
-    - apply (i_s6 _ I).
-    - apply rn_sorted_ls.
-    - intros. unfold lstore'. simpl. rewrite !get_lput2. destruct (b =? n) eqn:E; auto. lia.
-  Qed.
 
   Lemma rg_class : forall rv : N -> N,
     (forall a c, find (fun e => keqb [a] [fst e]) (d_deploy d) = None -> get (s_class s) [a] = Some c -> rv a = c) ->
@@ -190,13 +177,6 @@ Section RevertNew.
           f_equal. apply Hrv; auto.
         * rewrite get_upd_class. rewrite F1, F2. auto.
   Qed.
-
-  Lemma rn_class :
-    foldd (fun e m => del [fst e] m) (d_deploy d)
-      (foldd (fun e m => put [fst e] (snd e) m)
-         (map (fun e => (fst e, rev_val_new lclass' [fst e] n)) (d_replace d)) (upd_class d (s_class s)))
-    = s_class s.
-  Proof. apply (rg_class (fun a => rev_val_new lclass' [a] n)). intros. apply rn_rev_class; auto. Qed.
 
   Lemma rg_nonce : forall rv : N -> N,
     (forall a c, find (fun e => keqb [a] [fst e]) (d_deploy d) = None -> get (s_nonce s) [a] = Some c -> rv a = c) ->
@@ -223,13 +203,6 @@ Section RevertNew.
           -- apply inkeys_find in Hd. destruct Hd. congruence.
         * rewrite get_upd_nonce. rewrite F1, F2. auto.
   Qed.
-
-  Lemma rn_nonce :
-    foldd (fun e m => del [fst e] m) (d_deploy d)
-      (foldd (fun e m => put [fst e] (snd e) m)
-         (map (fun e => (fst e, rev_val_new lnonce' [fst e] n)) (d_nonce d)) (upd_nonce d (s_nonce s)))
-    = s_nonce s.
-  Proof. apply (rg_nonce (fun a => rev_val_new lnonce' [a] n)). intros. apply rn_rev_nonce; auto. Qed.
 
   Lemma rn_dh : foldd (fun e m => del [fst e] m) (d_deploy d) (upd_dh n d (s_dh s)) = s_dh s.
   Proof.
@@ -268,17 +241,9 @@ Section RevertNew.
       + rewrite get_upd_store by auto. unfold skey. rewrite F1. auto.
   Qed.
 
-  Lemma rn_store_undo :
-    upd_store (map (fun e => (fst e, rev_val_new lstore' [fst (fst e); snd (fst e)] n)) (d_store d))
-      (upd_store (d_store d) (s_store s)) = s_store s.
-  Proof. apply (rg_store_undo (fun a sl => rev_val_new lstore' [a; sl] n)). intros. apply rn_rev_store. Qed.
-
-  Lemma rn_store :
-    foldd (fun e m => del_prefix [fst e] m) (d_deploy d)
-      (upd_store (map (fun e => (fst e, rev_val_new lstore' [fst (fst e); snd (fst e)] n)) (d_store d))
-         (upd_store (d_store d) (s_store s))) = s_store s.
+  (* the storage of the contracts the block deployed was empty before it *)
+  Lemma rg_store_prefix : foldd (fun e m => del_prefix [fst e] m) (d_deploy d) (s_store s) = s_store s.
   Proof.
-    rewrite rn_store_undo.
     assert (S0 : sorted (s_store s)) by apply (i_s4 _ I).
     apply sorted_ext; auto.
     - apply sorted_fold_del_prefix. auto.
@@ -289,13 +254,91 @@ Section RevertNew.
       destruct (i_store _ I _ _ G) as [_ [a [sl [K Hc]]]]. inversion K; subst.
       exfalso. apply Hc. apply (v_deploy _ _ Vd); auto.
   Qed.
+End RevertHead.
+
+(* removing the system contracts after the deployed ones = removing the deployments of [with_sys] *)
+Lemma foldd_sys_del : forall {V} (l : list N) (l2 : list (N * N)) (m : smap V),
+  foldd (fun a m => del [a] m) l (foldd (fun e m => del [fst e] m) l2 m) =
+  foldd (fun e m => del [fst e] m) (map (fun a => (a, 0)) l ++ l2) m.
+Proof. intros. rewrite foldd_app, foldd_map. auto. Qed.
+
+Lemma foldd_sys_del_prefix : forall {V} (l : list N) (l2 : list (N * N)) (m : smap V),
+  foldd (fun a m => del_prefix [a] m) l (foldd (fun e m => del_prefix [fst e] m) l2 m) =
+  foldd (fun e m => del_prefix [fst e] m) (map (fun a => (a, 0)) l ++ l2) m.
+Proof. intros. rewrite foldd_app, foldd_map. auto. Qed.
+
+(* for a system contract: it has a record iff its storage is not empty *)
+Lemma sys_present_store : forall s a, Inv s -> is_sys a = true -> has_store (s_store s) a = present (s_class s) a.
+Proof.
+  intros s a I Ha. destruct (present (s_class s) a) eqn:P.
+  - apply present_iff in P. apply (i_sys _ I); auto.
+  - apply present_false in P. destruct (has_store (s_store s) a) eqn:H; auto.
+    apply has_store_iff in H; [|apply (i_s4 _ I)]. destruct H as [k [v [G Hp]]].
+    destruct (i_store _ I _ _ G) as [_ [x [sl [K Hc]]]]. subst. rewrite has_prefix_2 in Hp.
+    apply N.eqb_eq in Hp. subst. contradiction.
+Qed.
+
+(* after the block every system contract it names has a record, so the reverse diff creates none *)
+Lemma sys_new_after : forall s d, Inv s -> VS s d ->
+  sys_new (upd_class (with_sys (s_class s) d) (s_class s)) d = [].
+Proof.
+  intros s d I V. unfold sys_new, sys_missing. rewrite filter_nil; auto.
+  intros a Ha. apply is_sys_in in Ha. destruct (touched d a) eqn:T; auto. simpl.
+  apply negb_false_iff. apply present_iff. apply upd_class_mono.
+  destruct (get (s_class s) [a]) eqn:E; [left; discriminate | right].
+  cbn [with_sys d_deploy]. rewrite inkeys_app. replace (inkeys (sys_new (s_class s) d) a) with true; auto.
+  symmetry. apply inkeys_sys_new. apply in_sys_missing. auto.
+Qed.
+
+Section RevertNew.
+  Variables (s : st) (d : diff).
+  Hypothesis I : Inv s.
+  Hypothesis Hs : Hist_new s.
+  Hypothesis V : VS s d.
+  Let n := s_next s.
+  Let dx := with_sys (s_class s) d.
+  Let Vd : Valid s dx := vs_valid _ _ V.
+  Let lstore' := lstore_new s d.
+  Let lnonce' := lnonce_new s d.
+  Let lclass' := lclass_new s d.
+
+  Lemma rn_sorted_ls : sorted lstore'. Proof. apply sorted_fold_put. apply (i_s6 _ I). Qed.
+  Lemma rn_sorted_ln : sorted lnonce'. Proof. apply sorted_fold_put. apply (i_s7 _ I). Qed.
+  Lemma rn_sorted_lc : sorted lclass'. Proof. repeat apply sorted_fold_put. apply (i_s8 _ I). Qed.
+
+  Lemma rn_rev_class : forall a c, get (s_class s) [a] = Some c -> rev_val_new lclass' [a] n = c.
+  Proof.
+    intros. rewrite (rev_val_stable (s_lclass s)).
+    - apply (h_class _ Hs); auto.
+    - apply (i_s8 _ I).
+    - apply rn_sorted_lc.
+    - intros. unfold lclass', lclass_new. simpl. rewrite !get_lput1. destruct (b =? s_next s) eqn:E; auto. unfold n in *. lia.
+  Qed.
+
+  Lemma rn_rev_nonce : forall a c, get (s_nonce s) [a] = Some c -> rev_val_new lnonce' [a] n = c.
+  Proof.
+    intros. rewrite (rev_val_stable (s_lnonce s)).
+    - apply (h_nonce _ Hs); auto.
+    - apply (i_s7 _ I).
+    - apply rn_sorted_ln.
+    - intros. unfold lnonce', lnonce_new. simpl. rewrite !get_lput1. destruct (b =? s_next s) eqn:E; auto. unfold n in *. lia.
+  Qed.
+
+  Lemma rn_rev_store : forall a sl, rev_val_new lstore' [a; sl] n = getd (s_store s) [a; sl].
+  Proof.
+    intros. rewrite (rev_val_stable (s_lstore s)).
+    - apply (h_store _ Hs); auto.
+    - apply (i_s6 _ I).
+    - apply rn_sorted_ls.
+    - intros. unfold lstore', lstore_new. simpl. rewrite !get_lput2. destruct (b =? s_next s) eqn:E; auto. unfold n in *. lia.
+  Qed.
 
   Lemma rn_lstore : foldd (fun e m => del [fst (fst e); snd (fst e); n] m) (d_store d) lstore' = s_lstore s.
   Proof.
     assert (S0 : sorted (s_lstore s)) by apply (i_s6 _ I).
     apply sorted_ext; auto.
     - apply sorted_fold_del. apply rn_sorted_ls.
-    - intros k. rewrite get_fold_del by apply rn_sorted_ls. unfold lstore'. rewrite get_fold_put.
+    - intros k. rewrite get_fold_del by apply rn_sorted_ls. unfold lstore', lstore_new. rewrite get_fold_put. fold n.
       destruct (find (fun e => keqb k [fst (fst e); snd (fst e); n]) (d_store d)) eqn:F; auto.
       apply find_key_some in F. destruct F as [K _]. subst. symmetry.
       apply (below_none _ _ [fst (fst p); snd (fst p)] _ (i_b1 _ I)). unfold n. lia.
@@ -311,7 +354,7 @@ Section RevertNew.
       destruct (find (fun e => keqb k [fst e; n]) (d_deploy d)) eqn:F2.
       + apply find_key_some in F2. destruct F2 as [K _]. subst. symmetry.
         apply (below_none _ _ [fst p] _ (i_b2 _ I)). unfold n. lia.
-      + rewrite get_fold_del by apply rn_sorted_ln. unfold lnonce'. rewrite get_fold_put.
+      + rewrite get_fold_del by apply rn_sorted_ln. unfold lnonce', lnonce_new. rewrite get_fold_put. fold n.
         destruct (find (fun e => keqb k [fst e; n]) (d_nonce d)) eqn:F; auto.
         apply find_key_some in F. destruct F as [K _]. subst. symmetry.
         apply (below_none _ _ [fst p] _ (i_b2 _ I)). unfold n. lia.
@@ -327,21 +370,36 @@ Section RevertNew.
       destruct (find (fun e => keqb k [fst e; n]) (d_deploy d)) eqn:F2.
       + apply find_key_some in F2. destruct F2 as [K _]. subst. symmetry.
         apply (below_none _ _ [fst p] _ (i_b3 _ I)). unfold n. lia.
-      + rewrite get_fold_del by apply rn_sorted_lc. unfold lclass'. rewrite !get_fold_put. rewrite F2.
+      + rewrite get_fold_del by apply rn_sorted_lc. unfold lclass', lclass_new. rewrite !get_fold_put. fold n. rewrite F2.
         destruct (find (fun e => keqb k [fst e; n]) (d_replace d)) eqn:F; auto.
         apply find_key_some in F. destruct F as [K _]. subst. symmetry.
         apply (below_none _ _ [fst p] _ (i_b3 _ I)). unfold n. lia.
   Qed.
 
+  (* commit() in Revert removes exactly the system contracts the block had created *)
+  Lemma rn_gone : filter (fun a => touched d a && negb (has_store (s_store s) a)) sys_addrs = sys_missing (s_class s) d.
+  Proof.
+    unfold sys_missing. apply filter_ext_in. intros a Ha. apply is_sys_in in Ha.
+    rewrite (sys_present_store s a I Ha). auto.
+  Qed.
+
   Lemma revert_store_new : revert_new (store_new s d) d = Some s.
   Proof.
-    unfold revert_new, store_new.
+    rewrite store_new_eq by auto. cbv zeta. unfold revert_new.
     cbn [s_next s_class s_nonce s_dh s_store s_decl s_lstore s_lnonce s_lclass].
     destruct (s_next s + 1 =? 0) eqn:E; [lia|].
     replace (s_next s + 1 - 1) with (s_next s) by lia.
     rewrite rm_decl_upd; [| apply (v_nodup_decl _ _ Vd) | apply (i_s5 _ I) | apply (i_decl _ I)].
-    fold n. fold lstore'. fold lnonce'. fold lclass'.
-    rewrite rn_class, rn_nonce, rn_dh, rn_store, rn_lstore, rn_lnonce, rn_lclass.
+    rewrite (sys_new_after s d I V). cbn [foldd fold_right].
+    fold n. fold dx. fold lstore'. fold lnonce'. fold lclass'.
+    rewrite (rg_store_undo s d I (fun a sl => rev_val_new lstore' [a; sl] n)) by (intros; apply rn_rev_store).
+    rewrite rn_gone. rewrite !foldd_sys_del, foldd_sys_del_prefix.
+    change (map (fun a => (a, 0)) (sys_missing (s_class s) d) ++ d_deploy d) with (d_deploy dx).
+    change (d_replace d) with (d_replace dx) at 1. change (d_nonce d) with (d_nonce dx) at 1.
+    rewrite (rg_class s dx I Vd (fun a => rev_val_new lclass' [a] n)) by (intros; apply rn_rev_class; auto).
+    rewrite (rg_nonce s dx I Vd (fun a => rev_val_new lnonce' [a] n)) by (intros; apply rn_rev_nonce; auto).
+    unfold n. rewrite (rn_dh s dx I Vd). rewrite (rg_store_prefix s dx I Vd).
+    fold n. rewrite rn_lstore, rn_lnonce, rn_lclass.
     destruct s; auto.
   Qed.
 End RevertNew.
